@@ -259,6 +259,7 @@ Section Moved.
     - unfold s'. rewrite s1_closed. reflexivity.
     - unfold s'. rewrite s1_closed. reflexivity.
     - unfold s'. rewrite s1_closed. reflexivity.
+    - unfold s'. rewrite s1_closed. reflexivity.
     - unfold s'. rewrite s1_closed. split; reflexivity.
     - intros a. unfold s'. rewrite has_record_set_record. f_equal. rewrite s1_closed. reflexivity.
     - exact m_supply. - exact m_shares. - exact m_unbonding. - exact m_redelegating.
